@@ -23,7 +23,7 @@ import (
 )
 
 type tHole struct {
-	kind   string // param child ctxref token name optoken number quoted call unknown substr replaced
+	kind   string // param child ctxref token name optoken number quoted call unknown substr replaced edited
 	name   string
 	idx    int
 	src    ssa.Value
@@ -240,6 +240,12 @@ func joinVals(a, b aval) aval {
 		return a
 	case *aClosure:
 		return joinVals(&aFuncs{fs: []*aClosure{x}}, b)
+	case *aArr:
+		// a slice variable assigned on several paths (the phi of an append loop): any element of either
+		if y, ok := b.(*aArr); ok && x != y {
+			return &aArr{known: map[int]aval{}, dynamic: true, summary: joinVals(x.read(-1), y.read(-1))}
+		}
+		return a
 	case *aTuple:
 		if y, ok := b.(*aTuple); ok && len(x.elems) == len(y.elems) {
 			out := &aTuple{elems: make([]aval, len(x.elems))}
@@ -672,6 +678,25 @@ func (ev *tEval) call(fr *tFrame, c *ssa.Call) aval {
 		}
 	}
 	com := &c.Call
+	// append(s, xs...): a slice holding any element of s or of xs, position unknown (as an element-wise copy at a
+	// computed index is); a slice the evaluator knows nothing about stays unknown
+	if bi, ok := com.Value.(*ssa.Builtin); ok && bi.Name() == "append" && len(com.Args) == 2 {
+		asArr := func(v ssa.Value) *aArr {
+			if cst, isC := v.(*ssa.Const); isC && cst.IsNil() {
+				return &aArr{known: map[int]aval{}}
+			}
+			a := ev.val(fr, v)
+			if cell, isCell := a.(*aCell); isCell {
+				a = cell.val
+			}
+			arr, _ := a.(*aArr)
+			return arr
+		}
+		if s, xs := asArr(com.Args[0]), asArr(com.Args[1]); s != nil && xs != nil {
+			return &aArr{known: map[int]aval{}, dynamic: true, summary: joinVals(s.read(-1), xs.read(-1))}
+		}
+		return &aUnknown{c}
+	}
 	if o := core.CalleeObj(com); o != nil {
 		switch core.ObjName(o) {
 		case "fmt.Sprintf":
